@@ -12,7 +12,7 @@ Lemma firstn_S_nth {A} (l : list A) k x : nth_error l k = Some x ->
 Proof.
   revert k. induction l as [|a t IH]; intros [|k] H; cbn in H; try discriminate.
   - injection H as <-. reflexivity.
-  - cbn [firstn]. rewrite (IH k H). reflexivity.
+  - change (a :: firstn (S k) t = (a :: firstn k t) ++ [x]). rewrite (IH k H). reflexivity.
 Qed.
 
 Lemma in_firstn_nth {A} (l : list A) k x : In x (firstn (S k) l) ->
@@ -33,7 +33,7 @@ Proof.
     + lia.
     + intros x [<-|Hx]; [lia|apply H2; exact Hx].
     + destruct H3 as [H3|H3]; [|right; right; exact H3].
-      destruct (Z.min_spec a b) as [[_ E]|[_ E]]; rewrite E in H3; [left|right; left]; exact H3.
+      rewrite <- H3. destruct (Z.min_spec a b) as [[_ E]|[_ E]]; rewrite E; [left|right; left]; reflexivity.
 Qed.
 
 Lemma zmin_list_sorted f : valid_fh f -> zmin_list f = zfirst f.
@@ -375,6 +375,29 @@ Proof.
     exact (Hlt p q Hp Hq).
 Qed.
 
+(* a training window of an accepted split is never empty *)
+Lemma train_nonempty sp ss s : valid_splitter sp -> splitter_splits sp = Ok ss -> In s ss ->
+  fst s <> [].
+Proof.
+  intros Hv Hss Hk. destruct sp as [kk c|nn f wlo]; cbn in Hss, Hv.
+  - destruct (sww c) eqn:Esww; [|discriminate].
+    pose proof Hv as (_ & Hwl & Hst & Hiw).
+    unfold window_split in Hss. destruct (feasible c) eqn:Hf; [|discriminate].
+    injection Hss as <-. apply in_app_or in Hk. destruct Hk as [Hk|Hk].
+    + unfold initial_split in Hk. destruct (iw c) as [i|] eqn:Ei; [|destruct Hk].
+      destruct Hk as [<-|[]]. cbn [fst]. specialize (Hiw i eq_refl).
+      rewrite zrange_cons by lia. discriminate.
+    + apply in_map_iff in Hk. destruct Hk as (cut' & <- & Hc).
+      destruct (regular_cutoff_bounds c cut' Hv Hc) as [Hlo _]. cbn [fst].
+      unfold start_point in Hlo. rewrite Esww in Hlo.
+      assert (0 <= cut').
+      { destruct (iw c) as [i|] eqn:Ei; [specialize (Hiw i eq_refl)|]; lia. }
+      unfold train_at. destruct kk; rewrite zrange_cons by lia; discriminate.
+  - injection Hss as <-. destruct Hk as [<-|[]]. cbn [fst]. destruct Hv as (Hf & Hn & Hw).
+    unfold single_cutoff. destruct wlo as [w|]; [specialize (Hw w eq_refl)|];
+      rewrite zrange_cons by lia; discriminate.
+Qed.
+
 (* ---- evaluate(), top level --------------------------------------------------------------------- *)
 
 Section Top.
@@ -467,30 +490,7 @@ Section Top.
     exists (rowof s (hist_upto sp st ss k)). split; [exact Hr|]. cbv zeta.
     destruct (splitter_sound sp ss Hv Hss) as (Hok & _).
     rewrite Forall_forall in Hok. pose proof (Hok s (nth_error_In _ _ Hk)) as Hs.
-    assert (Hne : fst s <> []).
-    { assert (Hfh : valid_fh (splitter_fh sp)).
-      { destruct sp; cbn in Hv |- *; [apply Hv|apply Hv]. }
-      destruct Hs as (cut & a & Ha & Htrn & _). clear - Hk Hss Hv Htrn Ha Hfh.
-      (* a training window of an accepted split is never empty *)
-      destruct sp as [kk c|nn f wlo]; cbn in Hss.
-      - destruct (sww c) eqn:Esww; [|discriminate].
-        pose proof Hv as (_ & Hwl & Hst & Hiw).
-        unfold window_split in Hss. destruct (feasible c) eqn:Hf; [|discriminate].
-        injection Hss as <-. apply nth_error_In in Hk. apply in_app_or in Hk.
-        destruct Hk as [Hk|Hk].
-        + unfold initial_split in Hk. destruct (iw c) as [i|] eqn:Ei; [|destruct Hk].
-          destruct Hk as [<-|[]]. cbn [fst]. specialize (Hiw i eq_refl).
-          rewrite zrange_cons by lia. discriminate.
-        + apply in_map_iff in Hk. destruct Hk as (cut' & <- & Hc).
-          destruct (regular_cutoff_bounds c cut' Hv Hc) as [Hlo _]. cbn [fst].
-          unfold start_point in Hlo. rewrite Esww in Hlo.
-          assert (0 <= cut').
-          { destruct (iw c) as [i|] eqn:Ei; [specialize (Hiw i eq_refl)|]; lia. }
-          unfold train_at. destruct kk; rewrite zrange_cons by lia; discriminate.
-      - injection Hss as <-. destruct k as [|k]; [|destruct k; discriminate].
-        cbn in Hk. injection Hk as <-. cbn [fst]. destruct Hv as (Hf & Hn & Hw).
-        unfold single_cutoff. destruct wlo as [w|]; [specialize (Hw w eq_refl)|];
-          rewrite zrange_cons by lia; discriminate. }
+    assert (Hne : fst s <> []) by exact (train_nonempty sp ss s Hv Hss (nth_error_In _ _ Hk)).
     repeat split; try reflexivity.
     - intro Hc. exact (row_cutoff_is_last_training_time XV tm yv xv respond cutoff_after metric st _
                          ss k s Hc Hk Hne).
@@ -540,57 +540,58 @@ Section Top.
     { rewrite Hte. unfold zlast. destruct Hfh as (Hne & _).
       rewrite (last_indep _ 0 (cut + 0)) by (destruct (splitter_fh sp); [congruence|discriminate]).
       apply (last_map (fun h => cut + h)). exact Hne. }
+    assert (Hlt : a < cut + 1).
+    { pose proof (train_nonempty sp ss s Hv Hss Hs) as Hne. rewrite Htrn in Hne.
+      destruct (Z_lt_le_dec a (cut + 1)); [assumption|]. rewrite zrange_nil in Hne by lia. congruence. }
+    assert (Hl2 : zlast (fst s) = cut).
+    { rewrite Htrn. pose proof (zrange_last_bounds a (cut + 1) 1 ltac:(lia) ltac:(lia)). lia. }
     repeat split.
     - intro b. unfold data_call. destruct (b || is_refit st); reflexivity.
     - unfold pred_call. cbn [call_x]. rewrite Hte at 1. rewrite xtest_positions_eq by exact Hfh.
-      rewrite Hl1.
-      destruct (Z.eq_dec a (cut + 1)) as [->|Hne].
-      + (* empty window cannot occur, but the statement does not need that: both sides agree *)
-        rewrite Htrn. rewrite (zrange_nil (cut + 1) (cut + 1)) by lia. cbn [zlast last].
-        (* zlast [] = 0: only reachable for cut = -1 ... handled by arithmetic below *)
-        destruct (Z.eq_dec cut (-1)) as [->|Hc]; [reflexivity|].
-        exfalso. (* a = cut+1 means the window is empty; split_ok allows it only formally *)
-        assert (Hin : In (cut + zfirst (splitter_fh sp)) (snd s)).
-        { rewrite Hte. apply in_map. destruct Hfh as (Hne' & _).
-          destruct (splitter_fh sp); [congruence|left; reflexivity]. }
-        (* empty windows are excluded by evaluate_row_honest's non-emptiness; here we show it again *)
-        apply Hc. clear Hin.
-        destruct sp as [kk c|nn f wlo]; cbn in Hss.
-        * destruct (sww c) eqn:Esww; [|discriminate]. pose proof Hv as (_ & Hwl & Hst & Hiw).
-          unfold window_split in Hss. destruct (feasible c) eqn:Hf; [|discriminate].
-          injection Hss as <-. apply in_app_or in Hs. destruct Hs as [Hs|Hs].
-          -- unfold initial_split in Hs. destruct (iw c) as [i|] eqn:Ei; [|destruct Hs].
-             destruct Hs as [<-|[]]. cbn [fst] in Htrn. specialize (Hiw i eq_refl).
-             rewrite zrange_cons in Htrn by lia. rewrite zrange_nil in Htrn by lia. discriminate.
-          -- apply in_map_iff in Hs. destruct Hs as (cut' & <- & Hc').
-             destruct (regular_cutoff_bounds c cut' Hv Hc') as [Hlo _]. cbn [fst] in Htrn.
-             unfold start_point in Hlo. rewrite Esww in Hlo.
-             assert (0 <= cut') by (destruct (iw c) as [i|] eqn:Ei; [specialize (Hiw i eq_refl)|]; lia).
-             unfold train_at in Htrn. rewrite (zrange_nil (cut + 1) (cut + 1)) in Htrn by lia.
-             destruct kk; rewrite zrange_cons in Htrn by lia; discriminate.
-        * injection Hss as <-. destruct Hs as [<-|[]]. cbn [fst] in Htrn.
-          destruct Hv as (Hf & Hn & Hw). unfold single_cutoff in Htrn.
-          rewrite (zrange_nil (cut + 1) (cut + 1)) in Htrn by lia.
-          destruct wlo as [w|]; [specialize (Hw w eq_refl)|];
-            rewrite zrange_cons in Htrn by lia; discriminate.
-      + assert (Hl2 : zlast (fst s) = cut).
-        { rewrite Htrn. pose proof (zrange_last_bounds a (cut + 1) 1 ltac:(lia) ltac:(lia)). lia. }
-        rewrite Hl2. reflexivity.
+      rewrite Hl1, Hl2. reflexivity.
     - intros q Hq. rewrite Hte in Hq. apply in_map_iff in Hq. destruct Hq as (h & <- & Hh).
-      apply zrange1_in. rewrite Hl1.
-      pose proof (valid_fh_pos _ h Hfh Hh). pose proof (valid_fh_le_last _ h Hfh Hh).
-      assert (zlast (fst s) <= cut).
-      { rewrite Htrn. destruct (Z.eq_dec a (cut + 1)) as [->|Hne].
-        - rewrite zrange_nil by lia. cbn. lia.
-        - pose proof (zrange_last_bounds a (cut + 1) 1 ltac:(lia) ltac:(lia)). lia. }
-      (* the slice starts right after the last training position *)
-      destruct (Z.eq_dec a (cut + 1)) as [->|Hne].
-      + rewrite Htrn in *. rewrite zrange_nil by lia. cbn [zlast last]. lia.
-      + assert (zlast (fst s) = cut).
-        { rewrite Htrn. pose proof (zrange_last_bounds a (cut + 1) 1 ltac:(lia) ltac:(lia)). lia. }
-        lia.
+      apply zrange1_in. rewrite Hl1, Hl2.
+      pose proof (valid_fh_pos _ h Hfh Hh). pose proof (valid_fh_le_last _ h Hfh Hh). lia.
     - intros Hx c Hc. rewrite Htr in Hc. destruct (in_history XV tm yv xv st _ c ss Hc) as (s' & b & _ & [->| ->]).
       + unfold data_call, x_at. rewrite Hx. destruct (b || is_refit st); reflexivity.
       + unfold pred_call, x_at. rewrite Hx. reflexivity.
   Qed.
 End Top.
+
+(* ---- the hypotheses are satisfiable: the Coq twins of the recording test double and of
+        NaiveForecaster(last/mean) meet both forecaster contracts ---------------------------------- *)
+
+Lemma frun_app f a b : frun f (a ++ b) = fold_left (fstep f) b (frun f a).
+Proof. unfold frun. apply fold_left_app. Qed.
+
+Theorem twins_fit_forgets f : fit_forgets Q (respond_of f) (cutoff_of f).
+Proof.
+  intros pre d x fh post. unfold respond_of, cutoff_of. rewrite frun_app.
+  unfold frun at 2 4. cbn [fold_left fstep]. split; reflexivity.
+Qed.
+
+Theorem twins_cutoff_contract f : cutoff_contract Q (cutoff_of f).
+Proof.
+  intros pre c p Hc (fh & x & ->). unfold cutoff_of. rewrite frun_app. cbn [fold_left].
+  destruct Hc as [(d & x' & f' & ->)|(d & x' & ->)]; reflexivity.
+Qed.
+
+Definition ex_sp : splitter :=
+  SWindow Sliding {| n := 9; fh := [1; 2]; wl := 3; step := 2; iw := None; sww := true |}.
+Definition ex_y : list Q := map inject_Z [3; 1; 4; 1; 5; 9; 2; 6; 5].
+
+Example ex_nonvacuous :
+  valid_splitter ex_sp /\ (forall p q, p < q -> p + 7 < q + 7) /\
+  exists rows tr,
+    model_eval ex_sp 7 ex_y None UpdateS MAsym (FDouble 1 1 1 1 1) = Ok (rows, tr) /\
+    map r_cutoff rows = [9; 11; 13] /\ map r_len rows = [3; 3; 3] /\ length tr = 6%nat /\
+    map (fun r => Qeq_bool (r_score r) (metric_of MAsym (map snd (r_ytest r)) (map snd (r_ypred r)))) rows
+      = [true; true; true] /\
+    (* the metric is genuinely asymmetric on this run: swapping its arguments changes row 0 *)
+    map (fun r => Qeq_bool (r_score r) (metric_of MAsym (map snd (r_ypred r)) (map snd (r_ytest r)))) rows
+      = [false; false; false].
+Proof.
+  split; [|split; [intros; lia|]].
+  - cbn. repeat split; cbn; try lia; try discriminate.
+  - eexists. eexists. split; [vm_compute; reflexivity|]. repeat split; vm_compute; reflexivity.
+Qed.
